@@ -61,8 +61,8 @@ WITNESSES = [
      "input": "println(string_repr(Dict[\"a\" => 1] == Dict[\"a\" => 1]))\nprintln(string_repr(Dict[\"a\" => 1] == Dict[\"a\" => 2]))\nprintln(string_repr(Dict[\"a\" => 1] == Dict[\"b\" => 1]))",
      "expect": {"stdout": "True\nFalse\nFalse"}, "note": "dicts built separately with the same entries are equal"},
     {"match": r"eq\.post\[(Int|String|List|Tuple|EnumVariant|Struct)\]", "kind": "run", "props": ["C13"],
-     "input": "println(string_repr(1 == 1))\nprintln(string_repr(\"a\" == \"a\"))\nprintln(string_repr([1, 2] == [1, 2]))\nprintln(string_repr([1, 2] == [1, 3]))\nprintln(string_repr((1, \"x\") == (1, \"x\")))\nprintln(string_repr(Some(1) == Some(1)))\nprintln(string_repr(Some(1) == None))\nprintln(string_repr([1] == [1, 1]))",
-     "expect": {"stdout": "True\nTrue\nTrue\nFalse\nTrue\nTrue\nFalse\nFalse"}},
+     "input": "println(string_repr(1 == 1))\nprintln(string_repr(\"a\" == \"a\"))\nprintln(string_repr([1, 2] == [1, 2]))\nprintln(string_repr([1, 2] == [1, 3]))\nprintln(string_repr((1, \"x\") == (1, \"x\")))\nprintln(string_repr(Some(1) == Some(1)))\nprintln(string_repr(Some(1) == None))\nprintln(string_repr([1] == [1, 1]))\nprintln(string_repr((1, 2) == (1, 2, 3)))\nprintln(string_repr((1, 2, 3) == (1, 2)))\nprintln(string_repr((1, 2) != (1, 2, 3)))",
+     "expect": {"stdout": "True\nTrue\nTrue\nFalse\nTrue\nTrue\nFalse\nFalse\nFalse\nFalse\nTrue"}},
 ]
 
 GLUE_TYPES = """
@@ -250,6 +250,7 @@ EQ_BY_TYPE = {
     "Option<Box<Value>>": "vq_opt_eq",
     "Vec<(SymbolName, Value)>": "vq_fields_eq",
     "Type": "vq_type_eq",
+    "Value": "vq_value_eq",
 }
 
 
@@ -331,6 +332,16 @@ def typed_eq_rule(u):
                     if re.fullmatch(r"[a-z_]\w*", x) and (m.group(1), f) in ftypes:
                         binds.append((m.start(), x, ftypes[(m.group(1), f)]))
 
+        # element bindings introduced by the loop desugarings (R5/R8): `let x = &xs[__i];`
+        for m in re.finditer(r"let\s+(\w+)\s*=\s*&(\w+)\[__i\d+\];", text):
+            ct = None
+            for (bp, bi, bt) in binds:
+                if bi == m.group(2) and bp < m.start():
+                    ct = bt
+            mm = re.fullmatch(r"Vec<(.+)>", ct or "")
+            if mm:
+                binds.append((m.start(), m.group(1), mm.group(1)))
+
         def type_at(ident, pos):
             best = None
             for (bp, bi, bt) in binds:
@@ -374,7 +385,7 @@ def build(tier):
     u.raw(open(os.path.join(HERE, "lemmas.rs")).read(), kind="spec")
     u.raw(MODELS, kind="prelude")
     u.raw(MODEL_HMAP, kind="prelude")
-    u.add_fn(VAL, "eq", impl="PartialEq for Value_", wrap_impl="Value_", rules=[typed_eq_rule(u)],
+    u.add_fn(VAL, "eq", impl="PartialEq for Value_", wrap_impl="Value_", rules=["R8", rw.simple("R10", r"Rc::ptr_eq\(&(\w+)\.0, &(\w+)\.0\)", r"vq_ptr_eq(\1, \2)"), typed_eq_rule(u)],
              contract=Contract(
                  ensures=[
                      ("Int", "%s && self is Int && other is Int ==> r == veq(*self, *other)" % LIT2),
